@@ -245,9 +245,17 @@ impl ZmodN {
             let (mi, c) = m[i + sz].overflowing_add(carryn);
             m[i + sz] = mi;
             if c {
-                assert!(i + sz + 1 < m.len());
-                // FIXME: overflow
-                m[i + sz + 1] += u64::from(c);
+                // Propagate the carry through words that are already full.
+                let mut j = i + sz + 1;
+                loop {
+                    assert!(j < m.len());
+                    let (mj, cj) = m[j].overflowing_add(1);
+                    m[j] = mj;
+                    if !cj {
+                        break;
+                    }
+                    j += 1;
+                }
             }
         }
         let mut m: [u64; MINT_WORDS] = m[sz..sz + MINT_WORDS].try_into().unwrap();
